@@ -9,6 +9,21 @@ mod oracle;
 mod c01;
 mod c02;
 mod c11_13;
+mod c03;
+mod c04;
+mod c05;
+mod c06;
+mod c07;
+mod c08;
+mod c09;
+mod c10;
+mod c12;
+mod c14;
+mod c15;
+mod c16;
+mod c17;
+mod c18;
+mod c19;
 
 use common::*;
 
@@ -23,6 +38,21 @@ fn main() {
         }
         "c01" => c01::run(&args),
         "c02" => c02::run(&args),
+        "c03" => c03::run(&args),
+        "c04" => c04::run(&args),
+        "c05" => c05::run(&args),
+        "c06" => c06::run(&args),
+        "c07" => c07::run(&args),
+        "c08" => c08::run(&args),
+        "c09" => c09::run(&args),
+        "c10" => c10::run(&args),
+        "c12" => c12::run(&args),
+        "c14" => c14::run(&args),
+        "c15" => c15::run(&args),
+        "c16" => c16::run(&args),
+        "c17" => c17::run(&args),
+        "c18" => c18::run(&args),
+        "c19" => c19::run(&args),
         "c11" => c11_13::run(&args, false),
         "c13" => c11_13::run(&args, true),
         other => {
